@@ -139,7 +139,71 @@ func targets(c *hl.Ctx) []target {
 		out = append(out, w)
 		return out
 	}
-	ts = append(ts, target{name: "rtmp.ReadMessage", run: rtmpRead, seeds: rtmpSeeds, small: 2, pumps: []pump{
+	// chunk-header sequences: 54 header shapes, each followed by the payload bytes a writer would send with it
+	rtmpUnits := func() (units [][]byte, names []string) {
+		add := func(n string, b []byte) { units = append(units, b); names = append(names, n) }
+		pay := func(n int) []byte {
+			if n > 128 {
+				n = 128
+			}
+			return hl.Pattern(n, 7)
+		}
+		be3 := func(v int) []byte { return []byte{byte(v >> 16), byte(v >> 8), byte(v)} }
+		for _, cid := range []byte{3, 4} {
+			for _, l := range []int{0, 1, 5, 128, 129, 300} {
+				for _, ts := range []int{0, 0xffffff} {
+					b := append([]byte{cid}, be3(ts)...)
+					b = append(append(b, be3(l)...), 8, 1, 0, 0, 0)
+					if ts == 0xffffff {
+						b = append(b, 0, 0xff, 0xff, 0xff)
+					}
+					add(fmt.Sprintf("fmt0(cid %d, len %d, ts %#x)", cid, l, ts), append(b, pay(l)...))
+				}
+			}
+			for _, l := range []int{0, 1, 5, 129, 300} {
+				for _, ts := range []int{0, 0xffffff} {
+					b := append([]byte{0x40 | cid}, be3(ts)...)
+					b = append(append(b, be3(l)...), 9)
+					if ts == 0xffffff {
+						b = append(b, 0, 0xff, 0xff, 0xff)
+					}
+					add(fmt.Sprintf("fmt1(cid %d, len %d, delta %#x)", cid, l, ts), append(b, pay(l)...))
+				}
+			}
+			for _, ts := range []int{0, 0xffffff} {
+				b := append([]byte{0x80 | cid}, be3(ts)...)
+				if ts == 0xffffff {
+					b = append(b, 0, 0xff, 0xff, 0xff)
+				}
+				add(fmt.Sprintf("fmt2(cid %d, delta %#x)", cid, ts), append(b, pay(128)...))
+			}
+			add(fmt.Sprintf("fmt3(cid %d)", cid), append([]byte{0xc0 | cid}, pay(128)...))
+		}
+		for _, v := range []uint32{1, 60, 0x7fffffff, 0xffffffff} {
+			add(fmt.Sprintf("SetChunkSize(%#x)", v), []byte{2, 0, 0, 0, 0, 0, 4, 1, 0, 0, 0, 0, byte(v >> 24), byte(v >> 16), byte(v >> 8), byte(v)})
+		}
+		return
+	}
+	rtmpFamily := family{name: "chunk-header-sequences", gen: func(thorough bool, emit func([]byte, string)) {
+		units, names := rtmpUnits()
+		depth := 3
+		if thorough {
+			depth = 4
+		}
+		var rec func(prefix []byte, note string, d int)
+		rec = func(prefix []byte, note string, d int) {
+			for i, u := range units {
+				b := append(append([]byte{}, prefix...), u...)
+				n := note + names[i]
+				emit(b, n)
+				if d+1 < depth {
+					rec(b, n+" ; ", d+1)
+				}
+			}
+		}
+		rec(nil, "", 0)
+	}}
+	ts = append(ts, target{name: "rtmp.ReadMessage", run: rtmpRead, seeds: rtmpSeeds, small: 2, families: []family{rtmpFamily}, pumps: []pump{
 		{"many-small-messages", func(n int) []byte {
 			return rep([]byte{0x03, 0, 0, 0, 0, 0, 1, 8, 1, 0, 0, 0, 0xaa}, n)
 		}},
